@@ -580,6 +580,38 @@ def accessor_spellings(R, rng, tier):
                                 f'in Algebra({algs.describe(spec)}) with x = multivector({vals})')
 
 
+def grade_selection_orders(R, rng, tier):
+    """x.grade(...) inside a registered function, for every selection of grades (adjacent or not, with stored grades in between)
+    and operands stored canonically, reversed, in binary order and rotated: the registered function = the plain one."""
+    import itertools as _it
+    for spec in ({'sig': [1, 1, 1]}, {'pqr': (2, 0, 1)}) + (({'pqr': (3, 0, 1)},) if tier != 'quick' else ()):
+        alg = algs.make_impl(spec)
+        canon = [int(k) for k in alg.canon2bin.values()]
+        layouts = {'canonical': canon, 'reversed': canon[::-1], 'binary': sorted(canon), 'rotated': canon[3:] + canon[:3],
+                   'sparse-shuffled': rng.sample(canon, len(canon) - 2)}
+        gsets = [gs for r_ in (1, 2, 3) for gs in _it.combinations(range(alg.d + 1), r_)]
+        if len(gsets) > 14:
+            gsets = rng.sample(gsets, 14)
+        for lname, ks in layouts.items():
+            vals = [rng.randint(1, 9) * rng.choice((1, -1)) for _ in ks]
+            x = oc.make_mv(alg, ks, vals)
+            for gs in gsets:
+                def sel(v, gs=gs):
+                    return v.grade(*gs)
+                R.count('route=grade-selection'); R.case(('grade-selection', repr(spec), lname, gs), lname != 'canonical')
+                want = as_items(sel(x))
+                try:
+                    got = as_items(alg.register(sel)(x))
+                except Exception as e:  # noqa
+                    got = f'{type(e).__name__}: {e}'[:100]
+                if isinstance(got, str) or not same_items(want, got, exact=True):
+                    R.violation({'clause': 'grade-selection', 'route': 'register'},
+                                {'algebra': spec, 'grade_selection': list(gs), 'keys': ks, 'values': vals},
+                                f'x.grade{gs} inside a registered function returns {got}, evaluated directly {want}, for x = {list(zip(ks, vals))} '
+                                f'({lname} storage order) in Algebra({algs.describe(spec)})')
+                    break
+
+
 def same_name_helpers(R, rng, tier):
     for it in range(6 if tier == 'quick' else 80):
         spec = random_spec(rng) if it % 2 else {'sig': [1, 1, 1, 0][:rng.choice((2, 3, 4))], 'start': None}
@@ -615,6 +647,7 @@ def run(R, tier):
     probes(R)
     same_name_helpers(R, rng, tier)
     accessor_spellings(R, rng, tier)
+    grade_selection_orders(R, rng, tier)
     quick = tier == 'quick'
     # 1. every one-level form, 2. two-level trees over the reduced operand set
     # (a named algebra: blades such as e20 / e01 are not spelled in the listing order of their generators)
@@ -670,6 +703,13 @@ def replay(R, rec):
     route = rec.get('class', {}).get('route', 'register')
     alg = algs.make_impl(r['algebra'])
     env = make_env(alg)
+    if r.get('grade_selection') is not None:
+        x = oc.make_mv(alg, list(r['keys']), list(r['values']))
+        f = lambda v, gs=tuple(r['grade_selection']): v.grade(*gs)
+        try:
+            return same_items(as_items(f(x)), as_items(alg.register(f)(x)), exact=True)
+        except Exception:  # noqa
+            return False
     if r.get('accessor'):
         x = alg.multivector(list(r['values']))
         f = lambda v, name=r['spelling']: getattr(v, name)
